@@ -62,6 +62,9 @@ STRENGTHENED = {
     "C07-11": "C07: 'shared' transaction steps (a second goroutine works on the SAME transaction object - gets, puts, deletes, scans - while the body runs, joined before the finish)",
     "C12-12": "C12 component sub-check: now and then a level of two digits (10-12) holds files (level numbers are not zero-padded in file names)",
     "C04-12": "drive: after SeekToLast inside a generated transaction, Next must end the iteration (C04 sequential sub-check, C01)",
+    "C06-11": "C06: second sub-check 'hot neighbour' (one writer inserting fresh keys directly next to a target key it keeps rewriting, 2-8 readers spinning on the target; single-writer register oracle)",
+    "C16-9": "C16: client batches whose entries carry sequence numbers filled in by the client (entries read back from a log / copied from another node)",
+    "C13-9": "C13: message fault 'inner_fault_same_span' (a message keeps first entry, last entry and length; inside, an entry is replaced by a copy of its neighbour, two entries are swapped, or only their sequence numbers are)",
     "C13-4": "C13: real Replica state machine with injected transient apply failures (error state -> recovery -> new stream)",
     "C15-4": "C15: primary with a pre-history (older log files in the directory) so that the ack path's retention pass has work to do",
 }
